@@ -565,3 +565,66 @@ impl StagesBuilder {
         }
     }
 }
+// ---- C07: everything a builder has accumulated
+pub open spec fn table_has(t: RwsT, x: ResourceId) -> bool {
+    exists|s: int, g: int, i: int| 0 <= s < t.len() && 0 <= g < t[s]@.len() && 0 <= i < t[s]@[g]@.len() && #[trigger] t[s]@[g]@[i] == x
+}
+// x occurs at a position lexicographically before (a, b, c)
+pub open spec fn table_has_before(t: RwsT, a: int, b: int, c: int, x: ResourceId) -> bool {
+    exists|s: int, g: int, i: int| 0 <= s < t.len() && 0 <= g < t[s]@.len() && 0 <= i < t[s]@[g]@.len() && #[trigger] t[s]@[g]@[i] == x
+        && (s < a || (s == a && (g < b || (g == b && i < c))))
+}
+pub proof fn lemma_before_step(t: RwsT, a: int, b: int, c: int, x: ResourceId)
+    requires 0 <= a < t.len(), 0 <= b < t[a]@.len(), 0 <= c < t[a]@[b]@.len()
+    ensures table_has_before(t, a, b, c + 1, x) <==> table_has_before(t, a, b, c, x) || x == t[a]@[b]@[c]
+{
+    if table_has_before(t, a, b, c + 1, x) {
+        let (s, g, i) = choose|s: int, g: int, i: int| 0 <= s < t.len() && 0 <= g < t[s]@.len() && 0 <= i < t[s]@[g]@.len() && #[trigger] t[s]@[g]@[i] == x
+            && (s < a || (s == a && (g < b || (g == b && i < c + 1))));
+        if !(s == a && g == b && i == c) { assert(t[s]@[g]@[i] == x); assert(table_has_before(t, a, b, c, x)); }
+    }
+    if x == t[a]@[b]@[c] { assert(t[a]@[b]@[c] == x); }
+    if table_has_before(t, a, b, c, x) {
+        let (s, g, i) = choose|s: int, g: int, i: int| 0 <= s < t.len() && 0 <= g < t[s]@.len() && 0 <= i < t[s]@[g]@.len() && #[trigger] t[s]@[g]@[i] == x
+            && (s < a || (s == a && (g < b || (g == b && i < c))));
+        assert(t[s]@[g]@[i] == x);
+    }
+}
+pub proof fn lemma_before_group_end(t: RwsT, a: int, b: int, x: ResourceId)
+    requires 0 <= a < t.len(), 0 <= b < t[a]@.len()
+    ensures table_has_before(t, a, b, t[a]@[b]@.len() as int, x) <==> table_has_before(t, a, b + 1, 0, x)
+{
+    if table_has_before(t, a, b, t[a]@[b]@.len() as int, x) {
+        let (s, g, i) = choose|s: int, g: int, i: int| 0 <= s < t.len() && 0 <= g < t[s]@.len() && 0 <= i < t[s]@[g]@.len() && #[trigger] t[s]@[g]@[i] == x
+            && (s < a || (s == a && (g < b || (g == b && i < t[a]@[b]@.len()))));
+        assert(t[s]@[g]@[i] == x);
+    }
+    if table_has_before(t, a, b + 1, 0, x) {
+        let (s, g, i) = choose|s: int, g: int, i: int| 0 <= s < t.len() && 0 <= g < t[s]@.len() && 0 <= i < t[s]@[g]@.len() && #[trigger] t[s]@[g]@[i] == x
+            && (s < a || (s == a && (g < b + 1 || (g == b + 1 && i < 0))));
+        assert(t[s]@[g]@[i] == x);
+    }
+}
+pub proof fn lemma_before_stage_end(t: RwsT, a: int, x: ResourceId)
+    requires 0 <= a < t.len()
+    ensures table_has_before(t, a, t[a]@.len() as int, 0, x) <==> table_has_before(t, a + 1, 0, 0, x)
+{
+    if table_has_before(t, a, t[a]@.len() as int, 0, x) {
+        let (s, g, i) = choose|s: int, g: int, i: int| 0 <= s < t.len() && 0 <= g < t[s]@.len() && 0 <= i < t[s]@[g]@.len() && #[trigger] t[s]@[g]@[i] == x
+            && (s < a || (s == a && (g < t[a]@.len() || (g == t[a]@.len() && i < 0))));
+        assert(t[s]@[g]@[i] == x);
+    }
+    if table_has_before(t, a + 1, 0, 0, x) {
+        let (s, g, i) = choose|s: int, g: int, i: int| 0 <= s < t.len() && 0 <= g < t[s]@.len() && 0 <= i < t[s]@[g]@.len() && #[trigger] t[s]@[g]@[i] == x
+            && (s < a + 1 || (s == a + 1 && (g < 0 || (g == 0 && i < 0))));
+        assert(t[s]@[g]@[i] == x);
+    }
+}
+pub proof fn lemma_before_all(t: RwsT, x: ResourceId)
+    ensures table_has_before(t, t.len() as int, 0, 0, x) <==> table_has(t, x), !table_has_before(t, 0, 0, 0, x)
+{
+    if table_has(t, x) {
+        let (s, g, i) = choose|s: int, g: int, i: int| 0 <= s < t.len() && 0 <= g < t[s]@.len() && 0 <= i < t[s]@[g]@.len() && #[trigger] t[s]@[g]@[i] == x;
+        assert(t[s]@[g]@[i] == x);
+    }
+}
